@@ -49,6 +49,13 @@ Definition g_enc_tetrad (c : cls) (s : pstate) : option (list nat) :=
   | _ => None
   end.
 
+(* ---- graph_to_numpy evaluated as a whole on the two-node graph (per-layer weights, summed) *)
+Definition g_enc_numpy (c : cls) (s : pstate) : option (Z * Z) :=
+  match nth (ps_index s) (tbl c gen_enc_numpy_admg gen_enc_numpy_cpdag gen_enc_numpy_pag) ENA with
+  | EPair x y => Some (x, y)
+  | _ => None
+  end.
+
 (* ---- decoders: the recorded add_edge calls, applied to the empty pair *)
 Definition empty_ps := PS false false false false false false.
 Definition set_op (s : pstate) (o : op) : pstate :=
@@ -116,9 +123,10 @@ Definition g_dec_tetrad (c : cls) (chs : list nat) : option pstate :=
 
 Definition g_enc (f : fmt) (c : cls) (s : pstate) : option (Z * Z) :=
   match f with
+  | FNumpy => g_enc_numpy c s
   | FClearn => g_enc_clearn c s
   | FPcalg => g_enc_pcalg c s
-  | _ => None            (* numpy: array arithmetic, tie (K); tetrad: strings, below *)
+  | FTetrad => None      (* strings, below *)
   end.
 Definition g_dec (f : fmt) (c : cls) (xy : Z * Z) : option pstate :=
   match f with
@@ -155,6 +163,12 @@ Proof.
   apply (on_adm_spec FPcalg (fun c s => ozz_eqb (g_enc FPcalg c s) (enc FPcalg c s))); [vm_compute; reflexivity | exact Ha].
 Qed.
 
+Lemma gen_enc_numpy_ok : forall c s, adm FNumpy c s = true -> g_enc FNumpy c s = Some (enc FNumpy c s).
+Proof.
+  intros c s Ha. apply ozz_eqb_eq.
+  apply (on_adm_spec FNumpy (fun c s => ozz_eqb (g_enc FNumpy c s) (enc FNumpy c s))); [vm_compute; reflexivity | exact Ha].
+Qed.
+
 Definition ochs_eqb (o : option (list nat)) (l : list nat) : bool :=
   match o with Some m => Nat.eqb (length m) (length l) && forallb (fun p => Nat.eqb (fst p) (snd p)) (combine m l) | None => false end.
 
@@ -171,13 +185,13 @@ Lemma gen_dec_tetrad_ok_b :
 Proof. vm_compute. reflexivity. Qed.
 
 (* pair round trip through the code of /repo as translated: decode (encode s) = s *)
-Theorem gen_pair_roundtrip : forall f c s, In f [FClearn; FPcalg] -> adm f c s = true ->
+Theorem gen_pair_roundtrip : forall f c s, In f [FNumpy; FClearn; FPcalg] -> adm f c s = true ->
   exists xy, g_enc f c s = Some xy /\ g_dec f c xy = Some s /\ xy = enc f c s.
 Proof.
   intros f c s Hf Ha. exists (enc f c s). split; [|split; [|reflexivity]].
-  - destruct Hf as [<-|[<-|[]]]; [apply gen_enc_clearn_ok | apply gen_enc_pcalg_ok]; exact Ha.
+  - destruct Hf as [<-|[<-|[<-|[]]]]; [apply gen_enc_numpy_ok | apply gen_enc_clearn_ok | apply gen_enc_pcalg_ok]; exact Ha.
   - apply ops_eqb_eq.
-    apply (on_adm_spec f (fun c s => ops_eqb (g_dec f c (enc f c s)) s)); [apply gen_dec_ok_b; simpl; tauto | exact Ha].
+    apply (on_adm_spec f (fun c s => ops_eqb (g_dec f c (enc f c s)) s)); [apply gen_dec_ok_b; exact Hf | exact Ha].
 Qed.
 
 (* numpy: /repo's decoder inverts the documented (demanded) enumeration; the encoder is tied by correspondence *)
@@ -197,7 +211,7 @@ Proof.
 Qed.
 
 (* import then export through /repo's tables: a well-formed code pair is reproduced *)
-Theorem gen_pair_roundtrip_inv : forall f c xy, In f [FClearn; FPcalg] -> wellformed_pair f c xy ->
+Theorem gen_pair_roundtrip_inv : forall f c xy, In f [FNumpy; FClearn; FPcalg] -> wellformed_pair f c xy ->
   exists s, g_dec f c xy = Some s /\ g_enc f c s = Some xy.
 Proof.
   intros f c xy Hf [s Hd]. destruct (dec_sound _ _ _ _ Hd) as [Ha He]. exists s.
